@@ -704,10 +704,16 @@ def check_case(ctx, case):
                 ok = False
     if not structure_ok:
         ctx.count("search:structure-mismatch(skipped)")
+    return compare_warnings(ctx, case, exp_warns, got_warns) and ok
+
+
+def compare_warnings(ctx, case, exp_warns, got_warns, mode=""):
+    """every expected warning (named by its marker) is reported at its true line of its true file."""
+    ok = True
     for needle, lines, src, chain, what in exp_warns:
         hits = [(l, s) for (m, l, s) in got_warns if re.search(r"\b" + needle + r"\b", m)]
         if not hits:
-            ctx.fail("warning:missing:" + what, case, f"no [myst.*] warning names {needle}", expected=sorted(lines), observed=None)
+            ctx.fail(mode + "warning:missing:" + what, case, f"no [myst.*] warning names {needle}", expected=sorted(lines), observed=None)
             ok = False
             continue
         for l, s in hits:
@@ -715,15 +721,78 @@ def check_case(ctx, case):
                 delta = [l - x for x in sorted(lines)] if isinstance(l, int) else "none"
                 sig = classify("warning", chain, delta)
                 ctx.fail(sig if sig in ("line:include:+1", "line:dir-firstline-body", "line:table-cell", "line:parsed-literal",
-                                    "line:directive-title:+1") else "warning-" + sig, case, f"warning naming {needle} carries line {l}, expected {sorted(lines)} in {src}",
+                                    "line:directive-title:+1") else mode + "warning-" + sig, case, f"warning naming {needle} carries line {l}, expected {sorted(lines)} in {src}",
                          expected={"lines": sorted(lines), "source": src}, observed={"line": l, "source": s})
                 ok = False
             elif s != src:
-                ctx.fail("warning-source:" + (chain[-1][0] if chain else "top"), case,
+                ctx.fail(mode + "warning-source:" + (chain[-1][0] if chain else "top"), case,
                          f"warning naming {needle} carries source {s}, expected {src}",
                          expected={"lines": sorted(lines), "source": src}, observed={"line": l, "source": s})
                 ok = False
     return ok
+
+
+# ------------------------------------------------------------------ the same documents under Sphinx: 'path:line' of warnings
+
+SPHINX_WARN = re.compile(r"^(?P<src>[^:\n]+?)(?::(?P<line>\d+))?: (?P<level>WARNING|ERROR|CRITICAL|SEVERE|INFO): (?P<msg>.*)$")
+
+
+def sphinx_batch(ctx, cases):
+    """one Sphinx build (dummy builder) of the cases as documents c<i>/main.md (+ their included files, excluded from the
+    project's own documents): every expected warning must be located at '<path of its file>:<true line>'."""
+    from lib.impl import SphinxProject
+    files = {"index.md": "# index\n\n```{toctree}\n" + "".join(f"c{i}/main\n" for i in range(len(cases))) + "```\n"}
+    exp = []
+    for i, case in enumerate(cases):
+        text, inc, recs = realise(case)
+        exp.append(expected_records(recs, "main.md", realise.trees)[1])
+        files[f"c{i}/main.md"] = text
+        for f, t in inc.items():
+            files[f"c{i}/{f}"] = t
+    conf = f"myst_enable_extensions = {EXT!r}\nexclude_patterns = ['_build', '**/inc*.md']\n"
+    try:
+        res = SphinxProject(files, conf=conf, builder="dummy").build()
+    except Exception as e:
+        ctx.fail("sphinx:exception:" + type(e).__name__, cases[0], f"the Sphinx build of {len(cases)} generated documents raised {e!r}")
+        return False
+    got = {}
+    for ln in re.sub(r"\x1b\[[0-9;]*m", "", res["warnings"]).splitlines():
+        m = SPHINX_WARN.match(ln)
+        if not m:
+            continue
+        path = m.group("src")
+        d, _, base = path.rpartition("/")
+        got.setdefault(d, []).append((m.group("msg"), int(m.group("line")) if m.group("line") else None, base))
+    ok = True
+    for i, case in enumerate(cases):
+        ctx.count("search:sphinx-doc")
+        ok = compare_warnings(ctx, case, exp[i], got.get(f"c{i}", []), mode="sphinx:") and ok
+    return ok
+
+
+def sphinx_unit(args):
+    seed, n, depth, fixed_slice = args
+
+    class C:
+        def __init__(self):
+            self.failures, self.counts = [], {}
+
+        def fail(self, signature, witness, what, expected=None, observed=None):
+            self.failures.append({"signature": signature, "witness": dict(witness, sphinx=True), "what": what,
+                                  "expected": expected, "observed": observed})
+
+        def count(self, k, n=1):
+            self.counts[k] = self.counts.get(k, 0) + n
+    c = C()
+    rng = random.Random(seed)
+    cases = mock_method_cases()[fixed_slice[0]::fixed_slice[1]] + [build_case(rng, max_depth=depth) for _ in range(n)]
+    sphinx_batch(c, cases)
+    per_sig, keep = {}, []
+    for f in c.failures:
+        per_sig[f["signature"]] = per_sig.get(f["signature"], 0) + 1
+        if per_sig[f["signature"]] <= 2:
+            keep.append(f)
+    return len(cases), keep, c.counts
 
 
 # ------------------------------------------------------------------ fixed cases (always run)
@@ -1247,6 +1316,16 @@ def search(ctx):
         fails += fl
         if sample:
             ctx.sample(sample, limit=3)
+    # the same kind of documents built by Sphinx: warnings located at '<path>:<line>'
+    per = ctx.budget(12, 120, 240)
+    sunits = [(ctx.rng.getrandbits(48), per, 2 + (i % 4), (i, nproc)) for i in range(nproc)]
+    with mp.get_context("fork").Pool(nproc) as pool:
+        sres = pool.map(sphinx_unit, sunits, chunksize=1)
+    for n, fl, counts in sres:
+        ctx.search_cases += n
+        for k, v in counts.items():
+            ctx.count(k, v)
+        fails += fl
     fails.sort(key=lambda f: size_of(f["witness"]))
     ctx.failures += fails
 
@@ -1260,7 +1339,7 @@ def replay(ctx, data):
     print("--- main.md"); print(text)
     for f, t in files.items():
         print("---", f); print(t)
-    ok = check_case(ctx, w)
+    ok = sphinx_batch(ctx, [w]) if w.get("sphinx") else check_case(ctx, w)
     print("replay:", "property holds on this input" if ok else ctx.failures[-1])
     return 0 if ok else 1
 
